@@ -368,9 +368,13 @@ pub fn run(tier: &str) -> i32 {
         }
     });
     let st = stats.into_inner().unwrap();
+    // the same guarantee for sessions over the real TCP / HTTP / WebSocket servers, after and between administrator sessions
+    let mut iso_rng = Rng::new(seed() ^ 0x150c08);
+    let iso = crate::transports::session_isolation(&v, true, &mut iso_rng, if thorough { 400 } else { 40 });
+    ev.set("sessions_over_real_transports", iso.to_json());
     ev.evaluations = st.sequences;
     ev.distinct_nontrivial = st.cells.len() as u64;
-    ev.rule = format!("twin runs: {} systematic sequences (every one of {} command templates alone and after a session-changing command, for db-token / user-token / no-db sessions, with and without an unresolved administrator conflict on a $$ key of an arbiter database) + {} seeded random sequences of length 2-6 over the templates and over every parser command word ({} words incl. an unknown one) with 0-4 arguments from a pool of $$ keys, patterns, names and numbers; distinct_nontrivial = distinct (command word, argument position holding a $$ key, session kind) cells executed", systematic, tmpl.len(), n_random, words.len());
+    ev.rule = format!("twin runs: {} systematic sequences (every one of {} command templates alone and after a session-changing command, for db-token / user-token / no-db sessions, with and without an unresolved administrator conflict on a $$ key of an arbiter database) + {} seeded random sequences of length 2-6 over the templates and over every parser command word ({} words incl. an unknown one) with 0-4 arguments from a pool of $$ keys, patterns, names and numbers; distinct_nontrivial = distinct (command word, argument position holding a $$ key, session kind) cells executed; + {} non-administrator sessions over the real TCP / HTTP / WebSocket servers of one node, each after / between administrator sessions over the same servers (12 administrator requests first in every other round so that every HTTP worker has served one): no reply may contain the current $$ value or an unnamed $$ key name and the $$ keys are re-read after every session", systematic, tmpl.len(), n_random, words.len(), iso.other_sessions);
     ev.samples = st.samples.clone();
     ev.set("commands_executed_on_both_twins", json!(st.commands));
     ev.set("distinct_sequences", json!(st.distinct.len()));
